@@ -208,7 +208,10 @@ def run_case(case):
         fin = np.isfinite(lr)
         if not (np.array_equal(np.isneginf(la), np.isneginf(lr)) and np.allclose(la[fin], lr[fin], rtol=1e-10, atol=1e-12)):
             raise Violation('C08:logpdf-value', '%s %r: logpdf %r, sum of conditional log densities %r; %s' % (what, A.tolist(), la.tolist(), lr.tolist(), ctx))
-        if not np.array_equal(a == 0, np.isneginf(la)):
+        # (a density can underflow to 0 in floating point where its logarithm is still finite: the cross check of the two zero
+        #  patterns is made where the reference log density is above the underflow range)
+        chk = ~(np.isfinite(lr) & (lr < -700))
+        if not np.array_equal((a == 0)[chk], np.isneginf(la)[chk]):
             raise Violation('C08:zero-iff-neginf', 'pdf zero pattern %r vs logpdf -inf pattern %r; %s' % ((a == 0).tolist(), np.isneginf(la).tolist(), ctx))
         # single points in every accepted shape
         x0 = A[0]
